@@ -60,11 +60,29 @@ def subhypergraph(H, nodes=None, edges=None, keep_isolates=True):
     nodes = set(H.nodes) if nodes is None else (set(nodes) & set(H.nodes))
     edges = set(H.edges) if edges is None else (set(edges) & set(H.edges))
 
+    from .simplicialcomplex import SimplicialComplex
+
+    edges = {
+        uid
+        for uid in H.edges
+        if uid in edges and set(H.edges.members(uid)).issubset(nodes)
+    }
+    if isinstance(H, SimplicialComplex) and len(edges) < H.num_edges:
+        # a sub-complex is closed under taking faces: the faces of the selected
+        # simplices come with the IDs and attributes they have in `H`
+        # (otherwise they are created anew, under IDs that name other simplices of `H`)
+        selected = [H.edges.members(uid) for uid in edges]
+        edges = {
+            uid
+            for uid in H.edges
+            if any(H.edges.members(uid) <= members for members in selected)
+        }
+
     new.add_nodes_from((uid, attr) for uid, attr in H.nodes.items() if uid in nodes)
     new.add_edges_from(
         (H.edges.members(uid), uid, attr)
         for uid, attr in H.edges.items()
-        if uid in edges and set(H.edges.members(uid)).issubset(nodes)
+        if uid in edges
     )
 
     if not keep_isolates:
